@@ -48,9 +48,11 @@ ACL_BODY = dict(
            nxos=["10 remark first", "20 permit tcp addrgroup G1 any eq 80", "30 permit ip any addrgroup G1",
                  "35 permit udp addrgroup G1 addrgroup G1", "40 deny ip any any log"]),
     B=dict(ios=["permit udp object-group GX any eq 53", "remark second", "permit icmp any any",
-                "remark see ip access-group A in on Ethernet1/1"],
+                "remark see ip access-group A in on Ethernet1/1", "remark !!! do not edit !!!",
+                "remark backup path! keep"],
            nxos=["permit udp addrgroup GX any eq 53", "remark second", "permit icmp any any",
-                 "remark see ip access-group A in on Ethernet1/1"]),
+                 "remark see ip access-group A in on Ethernet1/1", "remark !!! do not edit !!!",
+                 "remark backup path! keep"]),
     S=dict(ios=["permit host 10.0.0.1", "deny any log"], nxos=None),
 )
 GROUPS = dict(
